@@ -33,10 +33,18 @@ static void pool_init(void)
         if (pool[r] == MAP_FAILED) engine_error("mmap of a buffer region failed");
     }
 }
+static uint8_t *reg_p[NREG]; static size_t reg_n[NREG];
 static void inputs_readonly(int on)
 {
     int r;
-    for (r = 0; r < NREG; ++r) if (is_input[r]) mprotect(pool[r], MAPSZ, on ? PROT_READ : PROT_READ | PROT_WRITE);
+    for (r = 0; r < NREG; ++r) if (is_input[r]) {
+        mprotect(pool[r], MAPSZ, on ? PROT_READ : PROT_READ | PROT_WRITE);
+        /* memcheck marks a range whose protection changes as addressable again: put the red zones back */
+        if (on && reg_p[r]) {
+            VALGRIND_MAKE_MEM_NOACCESS(pool[r], (size_t)(reg_p[r] - pool[r]));
+            VALGRIND_MAKE_MEM_NOACCESS(reg_p[r] + reg_n[r], MAPSZ - (size_t)(reg_p[r] + reg_n[r] - pool[r]));
+        }
+    }
 }
 static uint8_t KEY[48], TWEAK[16], CTRV[16], DATA[1024], TW[1024];
 static unsigned long last_errs;
@@ -51,6 +59,7 @@ static char cur_case[200];
 static uint8_t *place(int r, int a, size_t n, const uint8_t *fill)
 {
     uint8_t *base = pool[r], *p = base + 256 + a;
+    reg_p[r] = p; reg_n[r] = n;
     is_input[r] = fill != NULL;     /* cleared by the caller when the same buffer is also written (in-place, overlap) */
     VALGRIND_MAKE_MEM_UNDEFINED(base, REGION);
     memset(base, 0xC3, REGION);
@@ -104,32 +113,43 @@ enum { SB_S128E, SB_S128D, SB_S64E, SB_S64D, SB_ME, SB_MT, SB_N };
 static const char *SBNAME[] = {"skinny128_ecb_encrypt", "skinny128_ecb_decrypt", "skinny64_ecb_encrypt", "skinny64_ecb_decrypt", "mantis_ecb_crypt", "mantis_ecb_crypt_tweaked"};
 static Skinny128Key_t k128; static Skinny64Key_t k64; static MantisKey_t km;
 
+/* the key schedule is an argument too: a byte copy of it sits between red zones in a region of its own (read-only
+ * during the call), at each offset that keeps the type's alignment */
+static const void *g_ks;
+static void sb_place_schedule(int f, int sel)
+{
+    const void *src = f < 2 ? (const void *)&k128 : (f < 4 ? (const void *)&k64 : (const void *)&km);
+    size_t n = f < 2 ? sizeof(k128) : (f < 4 ? sizeof(k64) : sizeof(km));
+    g_ks = place(3, 8 * (sel & 3), n, src);
+}
 static void sb_call(int f, uint8_t *out, const uint8_t *in, const uint8_t *tw)
 {
     switch (f) {
-    case SB_S128E: LIB(skinny128_ecb_encrypt(out, in, &k128)); break;
-    case SB_S128D: LIB(skinny128_ecb_decrypt(out, in, &k128)); break;
-    case SB_S64E: LIB(skinny64_ecb_encrypt(out, in, &k64)); break;
-    case SB_S64D: LIB(skinny64_ecb_decrypt(out, in, &k64)); break;
-    case SB_ME: LIB(mantis_ecb_crypt(out, in, &km)); break;
-    default: LIB(mantis_ecb_crypt_tweaked(out, in, tw, &km)); break;
+    case SB_S128E: LIB(skinny128_ecb_encrypt(out, in, g_ks ? (const Skinny128Key_t *)g_ks : &k128)); break;
+    case SB_S128D: LIB(skinny128_ecb_decrypt(out, in, g_ks ? (const Skinny128Key_t *)g_ks : &k128)); break;
+    case SB_S64E: LIB(skinny64_ecb_encrypt(out, in, g_ks ? (const Skinny64Key_t *)g_ks : &k64)); break;
+    case SB_S64D: LIB(skinny64_ecb_decrypt(out, in, g_ks ? (const Skinny64Key_t *)g_ks : &k64)); break;
+    case SB_ME: LIB(mantis_ecb_crypt(out, in, g_ks ? (const MantisKey_t *)g_ks : &km)); break;
+    default: LIB(mantis_ecb_crypt_tweaked(out, in, tw, g_ks ? (const MantisKey_t *)g_ks : &km)); break;
     }
 }
 
 static void run_single(void)
 {
     int f, ai, ao, at, d;
-    skinny128_set_key(&k128, KEY, 32); skinny64_set_key(&k64, KEY, 16); mantis_set_key(&km, KEY, 16, 7, MANTIS_ENCRYPT); mantis_set_tweak(&km, TWEAK, 8);
+    skinny128_set_key(&k128, KEY, 48); skinny64_set_key(&k64, KEY, 24); mantis_set_key(&km, KEY, 16, 8, MANTIS_ENCRYPT); mantis_set_tweak(&km, TWEAK, 8);   /* the longest schedules: the round loops run to the end of the objects */
     for (f = 0; f < SB_N; ++f) {
         size_t bs = f < 2 ? 16 : 8; uint8_t ref[16], got[16];
         if (f % g_opts.nshards != g_opts.shard % SB_N && g_opts.nshards > 1) continue;
         uint8_t *ptrs[3]; size_t lens[3]; int regs[3] = {0, 1, 2};
         cur_fn = SBNAME[f];
+        g_ks = NULL;
         sb_call(f, ref, DATA, TW);
         for (ai = 0; ai < 32; ++ai) for (ao = 0; ao < 32; ++ao) {
             uint8_t *in = place(0, ai, bs, DATA), *out = place(1, ao, bs, NULL), *tw;
             at = (ai * 7 + ao * 3) & 31;
             tw = place(2, at, 8, TW);
+            sb_place_schedule(f, ai + ao);
             snprintf(cur_case, sizeof(cur_case), "c09 single %d in+%d out+%d tweak+%d", f, ai, ao, at);
             if (CASE_SKIP()) continue;
             GUARDED(sb_call(f, out, in, tw));
